@@ -82,9 +82,11 @@ func run(c *vf.Ctx) {
 		names[ep.Name] = true
 	}
 
-	// E5 self-test, concurrently with the real run
+	// E5 self-test, BEFORE the real run (it has short watchdog limits of its own: run next to a code under test
+	// that hangs in thousands of cases it mistook its own stack-overflow probe for a hang and ended the check with
+	// a harness error instead of the violations found)
 	selfErr := make(chan error, 1)
-	go func() { selfErr <- selfTest(c, reg) }()
+	selfErr <- selfTest(c, reg)
 
 	agg := newAggregate()
 	// distinct cases are counted (de-duplicated by hash) inside the workers, per entry point; vf only
